@@ -494,4 +494,8 @@ def main(tier):
     stale_outputs(prog, chk)
     option_forwarding(prog, chk)
     compare_uses_argument(prog, chk)
+    import c16_more
+    c16_more.index_range_rule(prog, chk, tuple(UNITS))
+    c16_more.validation_subject_rule(prog, chk, tuple(UNITS))
+    c16_more.geometry_columns_rule(prog, chk)
     return chk.finish()
